@@ -30,6 +30,7 @@ OPTS = [[], ["--side-by-side"], ["--line-numbers"], ["--navigate"], ["--color-on
         ["--syntax-theme", "none"], ["--dark"], ["--light"], ["--max-line-distance", "0.3"], ["--wrap-max-lines", "0", "--side-by-side"]]
 MARKERS = ("commit ", "diff ", "@@", "old mode ", "new mode ", "Binary files ", "--- ", "+++ ", "Only in ", "Submodule ", "rename ", "copy ",
            "{", "deleted file", "new file", "similarity ", "index ")
+DIFF_STAT_RE = re.compile(r" ([^\| ][^\|]+[^\| ]) +(\| +[0-9]+ .+)")
 BLAME_LIKE = re.compile(r"^\^?[0-9a-f]{4,40}\b")
 
 
@@ -67,7 +68,11 @@ def expected_line(b):
     i = s.rfind(b"\r")
     if i >= 0:
         rest = s[i + 1:].decode("utf-8", "replace")
-        if term.text_width(term.strip(rest)) == 0:
+        # delta measures the rest with unicode-width, which counts a C0 control character (tab, ...)
+        # as one column: the carriage return is dropped only when nothing at all but escape
+        # sequences follows
+        plain = term.strip(rest)
+        if term.text_width(plain) + sum(1 for ch in plain if ord(ch) < 32 or ord(ch) == 127) == 0:
             s = s[:i] + s[i + 1:]
     return s
 
@@ -79,14 +84,18 @@ def gen_cases(tier, seed):
         r = vlib.case_rng(seed, PID, i)
         kind = r.choice(["text", "text", "around", "log"])
         opts = r.choice(OPTS)
+        # git exports GIT_PREFIX when delta is started from a sub-directory (used by --relative-paths)
+        prefix = r.choice([None, None, "sub/dir/", "x/"])
+        if prefix and r.random() < 0.5:
+            opts = ["--relative-paths"] + r.choice([[], ["--hyperlinks"], ["--side-by-side"]])
         if kind == "text":
             lines = [gtext_line(r) for _ in range(r.randint(1, 15))]
-            cases.append({"kind": kind, "opts": opts, "lines": lines, "text_idx": list(range(len(lines)))})
+            cases.append({"kind": kind, "opts": opts, "lines": lines, "text_idx": list(range(len(lines))), "git_prefix": prefix})
         elif kind == "around":
             pre = [gtext_line(r) for _ in range(r.randint(1, 6))]
             d = gdiff.gen_diff(r, nsec=r.randint(1, 2), log=False)
             lines = pre + gdiff.diff_lines(d)
-            cases.append({"kind": kind, "opts": opts, "lines": lines, "text_idx": list(range(len(pre)))})
+            cases.append({"kind": kind, "opts": opts, "lines": lines, "text_idx": list(range(len(pre))), "git_prefix": prefix})
         else:
             lines = []
             idx = []
@@ -100,7 +109,7 @@ def gen_cases(tier, seed):
                 lines.append("")
                 d = gdiff.gen_diff(r, nsec=r.randint(1, 2), log=False)
                 lines += gdiff.diff_lines(d)
-            cases.append({"kind": kind, "opts": opts, "lines": lines, "text_idx": idx})
+            cases.append({"kind": kind, "opts": opts, "lines": lines, "text_idx": idx, "git_prefix": prefix})
     return cases
 
 
@@ -123,7 +132,8 @@ def main(tier, replay=None):
 
     def work(c):
         inp = ("\n".join(c["lines"]) + "\n").encode("utf-8")
-        return vlib.run_delta(["--no-gitconfig", "--paging", "never"] + c["opts"], stdin=inp)
+        env = {"GIT_PREFIX": c["git_prefix"]} if c.get("git_prefix") else None
+        return vlib.run_delta(["--no-gitconfig", "--paging", "never"] + c["opts"], stdin=inp, env_extra=env)
 
     with ThreadPoolExecutor(max_workers=vlib.NCPU) as ex:
         results = list(ex.map(work, cases))
@@ -135,7 +145,14 @@ def main(tier, replay=None):
         if rc != 0:
             chk.violation({"property": PID, "why": f"exit status {rc}: {err[-300:]!r}", "case": c, "shape": "crash"})
             continue
-        want = [expected_line(lines[i].encode("utf-8")) for i in c["text_idx"]]
+        chk.count("git_prefix:" + ("set" if c.get("git_prefix") else "unset"))
+        text_idx = c["text_idx"]
+        if c.get("git_prefix") and "--relative-paths" in c["opts"]:
+            # a ` path | 12 ++-` look-alike is a diff-stat line, rewritten relative to the sub-directory: a construct, not plain text
+            text_idx = [i for i in text_idx if not DIFF_STAT_RE.search(term.strip(lines[i]))]
+            if c["kind"] == "text" and len(text_idx) != len(c["text_idx"]):
+                continue
+        want = [expected_line(lines[i].encode("utf-8")) for i in text_idx]
         outl = out.split(b"\n")
         why = []
         if c["kind"] == "text":
@@ -150,7 +167,7 @@ def main(tier, replay=None):
                 try:
                     pos = outl.index(w, pos) + 1
                 except ValueError:
-                    why.append(f"text line {c['text_idx'][j]} {w!r} not found unchanged (in order) in the output")
+                    why.append(f"text line {text_idx[j]} {w!r} not found unchanged (in order) in the output")
                     break
         if why:
             chk.violation({"property": PID, "why": "; ".join(why), "case": c, "input": "\n".join(lines), "opts": " ".join(c["opts"]),
